@@ -35,6 +35,14 @@ def check(rep, ctx):
     R_B = rep.rule("C10-b-acyclic", "the entity reference graph of the schema is acyclic (bounded nesting)", floor=1600)
     R_C = rep.rule("C10-c-progress", "every array item consumes at least one byte; tagged iterations read two varints", floor=900)
     R_D = rep.rule("C10-d-bounded-reads", "no reader path performs an unsized read", floor=19)
+    R_OV = rep.rule("C10-d-no-over-read", "no read asks the caller's stream for the larger of what is needed and something else (read(max(...)))", floor=0,
+                   necessary_because="skipping an unknown tagged field with read(max(remaining, 4096)) swallows up to 4 KiB of what follows it")
+    from .. import scan as _scan
+    for o in _scan.over_reads(ctx, ["kio.serial.readers", "kio.serial._parse", "kio.records.readers"]):
+        rep.check(R_OV, False, construct=o["function"], stmt=o["stmt"],
+                  message=f"`{o['stmt']}` requests {o['size']} bytes: more than the item holds whenever the other operand is larger -- the bytes of "
+                          f"the next field, element or message are consumed and discarded", file=o["file"], line=o["line"])
+    rep.count(R_OV, 1, instance="scan")
     R_E = rep.rule("C10-e-reencodable", "what a field reader returns is in the format its sibling writer accepts", floor=5000)
     allowed = [exc_class(ctx, r) for r in ALLOWED_ROOTS]
     seen = {}
